@@ -113,7 +113,8 @@ AbsApply(E, e, r) ==
             LET nAsked == IF r.pan THEN Len(r.ret) - 1 ELSE Len(r.ret)
                 asked  == {r.ret[i].n : i \in 1..nAsked}
             IN ARes({x \in E : x.n \in e.keep \/ x.n \notin asked}, SortedPV(E))
-      [] e.a = "Entry"          -> AEntrySession(E, e.p, e.ops)
+      [] e.a = "Entry"          -> IF NoUseAfterRemove(e.ops) THEN AEntrySession(E, e.p, e.ops)
+                                   ELSE [E |-> Entries(r.m), ret |-> r.ret, pan |-> r.pan]     \* finding F7
       [] e.a = "GetMut"         -> ARes(IF AHas(E, e.p.n) THEN ASetVal(E, e.p.n, e.v) ELSE E, AVal(E, e.p.n))
       [] e.a = "LpmMut"         -> LET l == ALpm(E, e.p) IN
                                    ARes(IF l = <<>> THEN E ELSE ASetVal(E, l[1].p.n, e.v), l)
@@ -167,6 +168,10 @@ RetAgrees(e, r, ar, E, canon, drift) ==
     ELSE IF e.a \in {"ViewSet", "ViewRemove", "ViewValueMut", "ViewIterMut"} THEN
          /\ ~r.pan /\ r.ret = ar.ret
          /\ r.ret = <<>> => AUnder(E, e.p) = {}
+    ELSE IF e.a = "Entry" /\ ~NoUseAfterRemove(e.ops)
+    THEN \* finding F7: the abstract map gives no meaning to calls on a removed OccupiedEntry; the
+         \* machine says what the code does (it panics on the unwrap)
+         TRUE
     ELSE IF e.a = "Retain"
     THEN \* every stored entry is asked exactly once (any order), unless the predicate panicked
          /\ ~r.pan => /\ Len(r.ret) = Len(ar.ret)
@@ -178,6 +183,8 @@ RetAgrees(e, r, ar, E, canon, drift) ==
 \* updating the cached counter.  DriftDelta is the amount by which len() runs ahead of the
 \* true number of entries after the event; only these two call sites may change it.
 DriftDelta(m, e) ==
+    \* finding F7: OccupiedEntry::insert after remove() stores a value again without counting it
+    IF e.a = "Entry" /\ Len(e.ops) = 2 /\ e.ops[1].o = "o_remove" /\ e.ops[2].o = "o_insert" THEN -1 ELSE
     IF e.a \in {"ViewSet", "ViewRemove"} /\ ViewAt(m, e.p) # <<>> /\ ViewAt(m, e.p)[1].k = "Node"
     THEN LET valued == m.a[ViewAt(m, e.p)[1].i].v # NoVal IN
          IF e.a = "ViewRemove" /\ valued THEN 1
